@@ -91,6 +91,10 @@ def check(col: Collector, tier: str):
         needed = set(re.findall(r"\$DIR/([A-Za-z0-9_.]+)", rtxt)) - {"filelist.txt"}
         col.add("C02.R1", f"{ename}.__init__", "files-the-runner-needs-are-written", needed <= set(files),
                 f"the runner copies {sorted(needed)} from its own directory; file_names is {files}", ini.loc)
+        unused = sorted(set(files) - needed - {runner})
+        col.add("C02.R1", f"{ename}.__init__", "written-files-are-used-by-the-runner", not unused,
+                f"{unused} are rendered into the package but the runner never takes them from $DIR: the build then runs without the generated source "
+                "or configuration", f"{tdir}/{runner}")
     ei = repo.method("executor", "__init__", hint="common.executor")
     st = {src(n.targets[0]): src(n.value) for n in walk_no_nested(ei.node) if isinstance(n, ast.Assign)}
     col.add("C02.R1", "executor.__init__", "stores-configuration", st.get("self._file_names") == "file_names" and st.get("self._runner_name") == "runner_name"
@@ -203,19 +207,8 @@ def check(col: Collector, tier: str):
     col.add("C02.R5", un.short, "counter-incremented-on-every-call-and-embedded", ok and glob and emb,
             "unique_name must append the process-wide counter to the base name and increment it on every path", un.loc)
     # no unique_name() at module/class level or in a default argument
-    bad = []
-    for mod in repo.modules.values():
-        for n in ast.walk(mod.tree):
-            if isinstance(n, ast.Call) and call_name(n) == "unique_name":
-                f = repo.enclosing_func(mod, n)
-                if f is None:
-                    bad.append(f"{mod.rel}:{n.lineno} (module/class level)")
-                else:
-                    dflts = list(f.node.args.defaults) + [d for d in f.node.args.kw_defaults if d is not None]
-                    if any(n is x for d in dflts for x in ast.walk(d)):
-                        bad.append(f"{mod.rel}:{n.lineno} (default argument)")
-    col.add("C02.R5", "func_adl_xAOD", "names-generated-per-use", not bad,
-            f"unique_name() evaluated once per process at {bad}: every use shares the same identifier (declared twice)")
+    from sa.props._tr import check_unique_names_per_use
+    check_unique_names_per_use(col, "C02.R5", repo)
     # every declared variable / loop variable gets its name from unique_name
     decl_sites = 0
     for f in repo.all_functions():
@@ -270,6 +263,9 @@ def check(col: Collector, tier: str):
             f"scope_fill definitions {[src(d)[:50] for d in ds]}: a fill scope that follows the last scalar column emits uses of a loop variable before/outside its loop", f.loc)
     # ------------------------------------------------------------ R9 whole-word substitution
     check_substitution(col, repo, "C02.R9")
+    # ------------------------------------------------------------ R13 templates are well-formed once their tags are blanked
+    from sa.props._tr import check_template_balance
+    check_template_balance(col, "C02.R13")
     # ------------------------------------------------------------ R12 what was collected reaches the templates
     from sa.props._tr import check_emission_pipeline
     col.floor("C02.R12", 10)
@@ -287,5 +283,10 @@ def check(col: Collector, tier: str):
                        "library names run together name a library that does not exist: the package no longer links what its code includes")
     import_obligations(col, "C02.R10", "c18", lambda o: o.rule == "C18.R2" and o.detail == "non-finite-float-rejected",
                        "inf and nan print as identifiers that nothing declares")
+    import_obligations(col, "C02.R10", "c11", lambda o: o.detail == "declared-return-type-is-the-type-the-code-computes",
+                       "a result variable declared with another type than the one the injected code assigns to it does not compile")
+    import_obligations(col, "C02.R10", "c16", lambda o: o.rule == "C16.R4",
+                       "the entry script must work in each of its documented modes (build only, run only, both): a path that is only set in one "
+                       "branch is undefined in the other")
     import_obligations(col, "C02.R10", "c10", lambda o: o.rule == "C10.R3",
                        "a wrong deref count or pointer depth makes every use of the method's result ill-typed")
